@@ -70,7 +70,12 @@ def allowance_sites(model: Model, fshort: str, share, eps_param="eps", rule="E4-
             if not ok:
                 bad = (m, why)
                 break
-        if opaque and not bad and any(_re.search(r"\b(sum|len)\(\[?.* for .* in .* if ", a) or "COUNT-IF(" in a for a in opaque[1]) \
+        def _counts_filtered(a):
+            if _re.search(r"\b(sum|len)\(\[?.* for .* in .* if ", a) or "COUNT-IF(" in a:
+                return True
+            # a local of the expression that is defined as a filtered count
+            return any(nz._filtered_count(nz.single_def[w]) is not None for w in _re.findall(r"[A-Za-z_]\w*", a) if w in nz.single_def)
+        if opaque and not bad and any(_counts_filtered(a) for a in opaque[1]) \
                 and not any(v <= Fraction(-1, 2) and any(r.fullmatch(a) for r in known_re) for a, v in opaque[0].exps.items()):
             # the share is a *filtered* count of modes: at most, and in general less than, the number of bonds - but every bond is truncated
             obs.append(Ob(rule, k, VIOLATED, model.where(f, call), norm(call.args[1])[:120],
@@ -110,6 +115,12 @@ def eps_flow(model: Model, caller_short: str, callee_q: str, eps_param="eps", po
                 arg = kw.value
         if arg is None and idx is not None and idx < len(call.args):
             arg = call.args[idx]
+        if arg is None and idx is None:
+            # the callee's parameter is not called `eps` (renamed): the argument that carries the caller's tolerance
+            cands = [a for a in list(call.args) + [kw.value for kw in call.keywords]
+                     if any(isinstance(x, ast.Name) and x.id == eps_param for x in ast.walk(a))]
+            if len(cands) == 1:
+                arg = cands[0]
         k = f"{caller_short}:{rule}:{callee_q.rsplit('.', 1)[-1]}({norm(call)[:40]})"
         if arg is None:
             obs.append(Ob(rule, k, VIOLATED, model.where(f, call), norm(call)[:100],
